@@ -33,6 +33,28 @@ type gen struct {
 	// set by the first stream-alloc failure: the implementation allocates what a length field claims, so a later case
 	// claiming 2^40 bytes would kill the harness (out of memory is fatal in Go) and with it the failure already recorded
 	allocBroken bool
+	out, stats  string // where finish writes the cases and the statistics
+}
+
+// finish writes the cases and statistics files.
+func (g *gen) finish() {
+	g.st.Extra["oracle_failures_total"] = g.fails
+	if err := g.cf.Write(g.out); err != nil {
+		vx.Die("write cases: %v", err)
+	}
+	if err := g.st.Write(g.stats); err != nil {
+		vx.Die("write stats: %v", err)
+	}
+}
+
+// hang reports a stream read helper that did not return (with the input that made it loop), writes what has been
+// collected so far and ends the run: the stuck goroutine cannot be stopped, and every later measurement would be skewed.
+func (g *gen) hang(desc map[string]any) {
+	desc["sig"] = "stream-hang"
+	desc["deadline"] = readDeadline.String()
+	g.fail(desc)
+	g.finish()
+	os.Exit(0)
 }
 
 func (g *gen) add(term string, desc map[string]any, key string, nontrivial bool) {
@@ -403,6 +425,9 @@ func (g *gen) judgeRead(o rop, kind string, data []byte, what string) readObs {
 		return readObs{}
 	}
 	ob, evs := runRead(o, kind, data, g.r)
+	if ob.hung {
+		g.hang(map[string]any{"what": what, "data": hexs(data), "op": o.term, "reader": kind, "events": evs})
+	}
 	desc := map[string]any{"what": what, "data": hexs(data), "op": o.term, "reader": kind, "events": evs}
 	g.add(readCaseT(data, evs, o, ob), desc, "read|"+o.kind+"|"+kind+"|"+what+"|"+ob.res[:min(len(ob.res), 14)], kind != "plain" || o.pfx > 0)
 	g.st.Count("read." + what)
@@ -724,6 +749,9 @@ func (g *gen) streamPairAt(o wop, kinds []string, atEnd bool) {
 			continue
 		}
 		ob, evs := runRead(o.read, kind, data, r)
+		if ob.hung {
+			g.hang(map[string]any{"what": "read-of-" + what, "data": hexs(data), "op": o.read.term, "write": o.term, "reader": kind, "events": evs})
+		}
 		g.add(readCaseT(data, evs, o.read, ob), map[string]any{"what": "read-of-" + what, "data": hexs(data), "op": o.read.term, "reader": kind, "events": evs},
 			"rw|"+o.kind+"|"+kind+"|"+ob.res[:min(len(ob.res), 10)], kind != "plain")
 		g.st.Count("read-of-write." + kind)
@@ -765,12 +793,12 @@ func (g *gen) directedStream() {
 	o := wop{kind: "bytes", term: joinT("WBytes", bytesT(big)), want: joinT("SVBytes", bytesT(big)), read: ropBytes(4100),
 		run: func(w *stream.ByteBuffer) error { return stream.WriteBytes(w, big) }}
 	g.streamPair(o, []string{"onebyte"})
-	// ReadBytes at the 1 MiB threshold of c8478d2 (exact buffer below and at it, a doubling buffer above: 2^20+1 grows
-	// once, 2^21+5 twice), read back under readers that split the reads differently
+	// ReadBytes at the 1 MiB threshold of c8478d2 (exact buffer at it, a doubling buffer above: 2^20+1 grows once,
+	// 2^21+5 twice), read back under readers that split the reads differently
 	const mib = 1 << 20
-	for i, n := range []int{mib - 1, mib, mib + 1, 2*mib + 5} {
+	for i, n := range []int{mib, mib + 1, 2*mib + 5} {
 		data := patBytes(n)
-		l := []serializer.SeriLengthPrefixType{0, serializer.SeriLengthPrefixTypeAsUint32, serializer.SeriLengthPrefixTypeAsUint64, 0}[i]
+		l := []serializer.SeriLengthPrefixType{serializer.SeriLengthPrefixTypeAsUint32, serializer.SeriLengthPrefixTypeAsUint64, 0}[i]
 		var o wop
 		if l == 0 {
 			o = wop{kind: "bytes", term: joinT("WBytes", bytesT(data)), want: joinT("SVBytes", bytesT(data)), read: ropBytes(int64(n)),
@@ -779,7 +807,7 @@ func (g *gen) directedStream() {
 			o = wop{kind: "bytessize", term: joinT("WBytesSize", lptT(l), bytesT(data)), want: joinT("SVBytes", bytesT(data)), read: ropBytesSize(l),
 				run: func(w *stream.ByteBuffer) error { return stream.WriteBytesWithSize(w, data, l) }}
 		}
-		g.streamPair(o, [][]string{{"plain"}, {"half"}, {"bigscript", "dataerr"}, {"bigscript"}}[i])
+		g.streamPair(o, [][]string{{"half"}, {"bigscript"}, {"dataerr"}}[i])
 	}
 }
 
@@ -859,7 +887,7 @@ func main() {
 	stats := fs.String("stats", "stats.json", "stats file")
 	_ = fs.Parse(os.Args[2:])
 
-	g := &gen{r: vx.NewRng(*seed*0x2545F4914F6CDD1D + 11).Fork(), part: os.Args[1]} // NewRng(s+1) is NewRng(s) shifted by one draw: decorrelate
+	g := &gen{r: vx.NewRng(*seed*0x2545F4914F6CDD1D + 11).Fork(), part: os.Args[1], out: *out, stats: *stats} // NewRng(s+1) is NewRng(s) shifted by one draw: decorrelate
 	g.st = vx.NewStats("distinct (input bytes, operations, reader script, observation); non-trivial = program of >= 2 primitives or a length-prefixed/sequence primitive, stream op with a length prefix or under a non-trivial reader")
 	g.cf = &vx.CasesFile{
 		Header: "From Coq Require Import ZArith NArith List.\nFrom Verif.C02_Prims Require Import Model Stream Corr.\nImport ListNotations.\n",
@@ -871,11 +899,5 @@ func main() {
 	} else {
 		g.streamPart(*n)
 	}
-	g.st.Extra["oracle_failures_total"] = g.fails
-	if err := g.cf.Write(*out); err != nil {
-		vx.Die("write cases: %v", err)
-	}
-	if err := g.st.Write(*stats); err != nil {
-		vx.Die("write stats: %v", err)
-	}
+	g.finish()
 }
